@@ -195,9 +195,22 @@ impl<'a> VxContainsStr<&'a Str> for [Str] {
     #[verifier::external_body]
     fn vx_contains_str(&self, x: &'a Str) -> (r: bool) ensures r == strs_contain(self@, x@) { unimplemented!() }
 }
-impl<'a, 'b, 'c, const N: usize> VxContainsStr<&'a &'b Str> for [&'c Str; N] {
+// a literal table `["a", "b", ..].contains(x)`: one contract per table length, written out so that no quantifier is needed at the call
+impl<'a, 'b, 'c> VxContainsStr<&'a &'b Str> for [&'c Str; 1] {
     #[verifier::external_body]
-    fn vx_contains_str(&self, x: &'a &'b Str) -> (r: bool) { unimplemented!() }
+    fn vx_contains_str(&self, x: &'a &'b Str) -> (r: bool) ensures r == (self@[0]@ == (**x)@) { unimplemented!() }
+}
+impl<'a, 'b, 'c> VxContainsStr<&'a &'b Str> for [&'c Str; 2] {
+    #[verifier::external_body]
+    fn vx_contains_str(&self, x: &'a &'b Str) -> (r: bool) ensures r == (self@[0]@ == (**x)@ || self@[1]@ == (**x)@) { unimplemented!() }
+}
+impl<'a, 'b, 'c> VxContainsStr<&'a &'b Str> for [&'c Str; 3] {
+    #[verifier::external_body]
+    fn vx_contains_str(&self, x: &'a &'b Str) -> (r: bool) ensures r == (self@[0]@ == (**x)@ || self@[1]@ == (**x)@ || self@[2]@ == (**x)@) { unimplemented!() }
+}
+impl<'a, 'b, 'c> VxContainsStr<&'a &'b Str> for [&'c Str; 4] {
+    #[verifier::external_body]
+    fn vx_contains_str(&self, x: &'a &'b Str) -> (r: bool) ensures r == (self@[0]@ == (**x)@ || self@[1]@ == (**x)@ || self@[2]@ == (**x)@ || self@[3]@ == (**x)@) { unimplemented!() }
 }
 
 impl<'a, 'b, 'c> VxContainsStr<&'a &'b Str> for [&'c Str] {
